@@ -112,6 +112,10 @@ inductive JVal
   | long (v : Int)       -- a `long` constant expression
   | bool (b : Bool)
   | null
+  | float (bits : Nat)   -- the `float` constant with this bit pattern (Float.POSITIVE_INFINITY / NEGATIVE_INFINITY)
+  | floatNaN             -- Float.NaN (Java does not keep NaN payloads apart)
+  | double (bits : Nat)
+  | doubleNaN
   deriving DecidableEq, Repr
 
 def digitVal (c : Char) : Option Nat :=
@@ -187,6 +191,13 @@ def javaLiteralValue (cs : List Char) : Option JVal :=
     else if cs = "true".toList then some (.bool true)
     else if cs = "false".toList then some (.bool false)
     else if cs = "null".toList then some .null
+    -- the constant fields of java.lang.Float / java.lang.Double (JLS 4.2.3; not literals, constant expressions)
+    else if cs = "Float.NaN".toList then some .floatNaN
+    else if cs = "Float.POSITIVE_INFINITY".toList then some (.float 0x7f800000)
+    else if cs = "Float.NEGATIVE_INFINITY".toList then some (.float 0xff800000)
+    else if cs = "Double.NaN".toList then some .doubleNaN
+    else if cs = "Double.POSITIVE_INFINITY".toList then some (.double 0x7ff0000000000000)
+    else if cs = "Double.NEGATIVE_INFINITY".toList then some (.double 0xfff0000000000000)
     else none
 
 /-- assignment conversion of a constant expression to the declared primitive type of the field
@@ -201,5 +212,50 @@ def assignable (proto : String) : JVal → Option Int
     else none
   | .long v => if proto = "J" then some v else none
   | _ => none
+
+/-! ### what a static field with an encoded initial value holds, seen from Java -/
+
+/-- the Java value of a field -/
+inductive JDen
+  | num (v : Int)         -- byte / short / char (code unit) / int / long
+  | bool (b : Bool)
+  | null
+  | floatBits (bits : Nat)   -- a non-NaN float with this pattern
+  | floatNaN
+  | doubleBits (bits : Nat)
+  | doubleNaN
+  deriving DecidableEq, Repr
+
+/-- IEEE 754: exponent all ones and a non-zero fraction -/
+def isNaN32 (b : Nat) : Bool := b / 2 ^ 23 % 2 ^ 8 == 255 && b % 2 ^ 23 != 0
+def isNaN64 (b : Nat) : Bool := b / 2 ^ 52 % 2 ^ 11 == 2047 && b % 2 ^ 52 != 0
+
+/-- The field type an encoded value of each kind initialises (the value types `javac`/`d8` put into
+    static_values next to a field of that type) and the Java value the field then holds.
+    `none`: string / type / field / method / enum / array / annotation values (no numeric-literal meaning). -/
+def declared : SValue → Option (String × JDen)
+  | .byte v => some ("B", .num v)
+  | .short v => some ("S", .num v)
+  | .char v => some ("C", .num (v : Int))
+  | .int v => some ("I", .num v)
+  | .long v => some ("J", .num v)
+  | .boolean b => some ("Z", .bool b)
+  | .null => some ("Ljava/lang/Object;", .null)
+  | .float b => some ("F", if isNaN32 b then .floatNaN else .floatBits b)
+  | .double b => some ("D", if isNaN64 b then .doubleNaN else .doubleBits b)
+  | _ => none
+
+/-- read a printed initialiser back as the value a field of type `proto` gets from it:
+    the Java reading of the text followed by assignment conversion (JLS 5.2) -/
+def readBack (proto : String) (text : List Char) : Option JDen :=
+  match javaLiteralValue text with
+  | some (.bool b) => if proto = "Z" then some (.bool b) else none
+  | some .null => some .null
+  | some (.float b) => if proto = "F" then some (.floatBits b) else none
+  | some .floatNaN => if proto = "F" then some .floatNaN else none
+  | some (.double b) => if proto = "D" then some (.doubleBits b) else none
+  | some .doubleNaN => if proto = "D" then some .doubleNaN else none
+  | some j => (assignable proto j).map .num
+  | none => none
 
 end AgVerif.Spec.EncodedValue
